@@ -1,11 +1,12 @@
 """C05 — approximate algorithms return a basis of the caller's graph with true weight."""
 from approx import *
-THEOREMS = ["Parmcb.C05.c05_basis", "Parmcb.C05.c05_owner", "Parmcb.C05.c05_count", "Parmcb.C05.c05_every_basis_has_N"]
+THEOREMS = ["Parmcb.C05.c05_basis", "Parmcb.C05.c05_owner", "Parmcb.C05.c05_count", "Parmcb.C05.c05_every_basis_has_N",
+            "Parmcb.C05.c05_approx_signed_end_to_end", "Parmcb.C05.c05_approx_fvs_trees_end_to_end", "Parmcb.C05.c05_approx_iso_trees_end_to_end"]
 PID = "C05"
 
 def the_oracle(case, k, block, mu): return oracle_c05(case, k, block)
 
-def run(tier, replay=None, pid=PID, theorems=THEOREMS, oracle=the_oracle, ks=(1, 2, 3, 5, 9, 40), need_mu=False, module="Parmcb.Props.C05b"):
+def run(tier, replay=None, pid=PID, theorems=THEOREMS, oracle=the_oracle, ks=(1, 2, 3, 5, 9, 40), need_mu=False, module="Parmcb.Props.C05c"):
     res = Result(pid, tier, "proof")
     res.assumptions = ["Model/Spanner.lean (approxRun) + Model/DePina.lean; the exact phase on the spanner and the shortest spanner paths are open choices validated per run (trace validation)",
                        "descriptors are dereferenced through the caller's maps after the call has returned (ASan build in the thorough tier)"]
